@@ -484,7 +484,7 @@ Proof.
     destruct ((0 <? s_amt s) && (s_pk s =? w_pk a)); [apply delete_slip_safe; auto|exact Ha]. }
   intros w1 H1.
   apply scan_safe; [|exact H1]. intros a s Ha Hin.
-  destruct ((0 <? s_amt s) && (s_pk s =? w_pk a)); [apply add_slip_safe; auto|exact Ha].
+  destruct ((0 <? s_amt s) && (s_pk s =? w_pk a) && (0 <? s_bid s)); [apply add_slip_safe; auto|exact Ha].
 Qed.
 
 Lemma reorg_safe : forall dbg w b lc gp,
@@ -656,29 +656,21 @@ Proof.
     specialize (B Hd). pose proof (ig_bal w G) as Hb. rewrite N.mod_small in Hb by exact B. lia.
 Qed.
 
-Lemma sum64_safe : forall dbg site l acc, site <> SITE_BAL_SUB ->
-  safe (fun _ => True) (sum64 dbg site acc l).
-Proof.
-  induction l as [|x t IH]; intros acc Hs; cbn [sum64]; [exact I|].
-  destruct (add64 dbg site acc x) eqn:E; cbn [bind safe]; auto.
-  apply add64_panic in E as [-> _]. exact Hs.
-Qed.
-
 Lemma create_safe : forall dbg w order keys pays fee latest gp,
   InvD dbg w -> NoDup order -> incl order (w_unspent w) ->
   safe (fun r => InvD dbg (fst r)) (create dbg w order keys pays fee latest gp).
 Proof.
   intros dbg w order keys pays fee latest gp H ND HI. unfold create.
-  eapply safe_bind; [apply sum64_safe; discriminate|]. intros total _.
+  destruct (sum_checked 0 pays) as [total|]; [|exact H].
   destruct (negb (Nlen pays =? Nlen keys)); [exact H|].
-  destruct (add64 dbg SITE_REQ_ADD total (if w_balance w <? fee then 0 else fee)) as [req| |s] eqn:Ea;
-    cbn [bind safe]; auto.
-  2: { apply add64_panic in Ea as [-> _]. discriminate. }
-  destruct (w_balance w <? req); [exact H|].
-  destruct (req =? 0).
+  cbv zeta.
+  destruct (negb (total + (if w_balance w <? fee then 0 else fee) <? W64)); [exact H|].
+  destruct (w_balance w <? total + (if w_balance w <? fee then 0 else fee)); [exact H|].
+  destruct (total + (if w_balance w <? fee then 0 else fee) =? 0).
   - cbn [bind safe fst]. exact H.
-  - pose proof (generate_slips_safe dbg w order req latest gp H ND HI) as HS.
-    destruct (generate_slips dbg w order req latest gp) as [[[w' ins] outs]| |s]; cbn [bind safe fst] in *; auto.
+  - pose proof (generate_slips_safe dbg w order (total + (if w_balance w <? fee then 0 else fee)) latest gp H ND HI) as HS.
+    destruct (generate_slips dbg w order (total + (if w_balance w <? fee then 0 else fee)) latest gp) as [[[w' ins] outs]| |s];
+      cbn [bind safe fst] in *; auto.
 Qed.
 
 (* ---- staking ---- *)
